@@ -828,7 +828,9 @@ def run(ctx):
         "pending, a timed request, each trigger factory + callback, unget_bytes; two renders; cursor diff) x crash points: normal exit, an "
         "exception after every prefix, KeyboardInterrupt and a real synchronous SIGINT at every asynchronous point (profile events call/c_return "
         "in curtsies frames; one-operation bodies quick, two-operation bodies thorough), OSError from the k-th write/read/select; 50 enter/exit "
-        "cycles; Input in a non-main thread. evaluations = executions on a real pty; non-trivial = the context is left through a fault" % nctx
+        "cycles; Input in a non-main thread; a never-entered Input inside Cbreak with the program flipping the blocking mode (all bodies of <= 4 "
+        "operations, prefix crash points); one Input used on the main thread and a worker thread (3 orders x 5 bodies x crash points) while another "
+        "Input holds a context on the main thread. evaluations = executions on a real pty; non-trivial = the context is left through a fault" % nctx
     )
     rep.assumptions = [
         "crash points lie between __enter__ returning and __exit__ starting; asynchronous exceptions are injected only where CPython can raise them",
